@@ -340,7 +340,7 @@ func checkCodec(t vkit.TB, c CodecCase) {
 	fl, class, nt, sig := codecFailure(c)
 	if fl != nil {
 		vkit.Violation(t, fl.key, fl.detail, Replay{Codec: &c})
-		vkit.Case("known:"+fl.key, false, "")
+		vkit.Case("known(codec):"+fl.key, false, "")
 		return
 	}
 	vkit.Case(class, nt, sig)
@@ -377,7 +377,7 @@ func codecSummary(c CodecCase) any {
 // generators
 
 func genFrameLen(t *rapid.T) int {
-	switch rapid.IntRange(0, 7).Draw(t, "lenClass") {
+	switch pick(t, "lenClass", 1, 1, 1, 1, 1, 3) {
 	case 0:
 		return 0
 	case 1:
@@ -395,7 +395,7 @@ func genFrameLen(t *rapid.T) int {
 
 func genFrame(t *rapid.T) FrameSpec {
 	f := FrameSpec{Seed: rapid.Uint32().Draw(t, "pseed")}
-	switch rapid.IntRange(0, 3).Draw(t, "idClass") {
+	switch pick(t, "idClass", 1, 1, 2) {
 	case 0:
 		f.ID = make([]byte, 16)
 	case 1:
@@ -416,7 +416,7 @@ func genFrame(t *rapid.T) FrameSpec {
 var hostileLens = []uint32{maxFrame + 1, maxFrame + 2, 2 * maxFrame, 1 << 20, 16 << 20, 64 << 20, 0x00FFFFFF, 0x01000000, 0x80000000 >> 4}
 
 func genHostileLen(t *rapid.T) uint32 {
-	if vkit.Thorough() && rapid.IntRange(0, 9).Draw(t, "giant") == 0 {
+	if vkit.Thorough() && pick(t, "giant", 9, 1) == 1 {
 		return rapid.SampledFrom([]uint32{0x7FFFFFFF, 0x80000000, 0xFFFFFFFF, 0xFFFF0000}).Draw(t, "giantLen")
 	}
 	if rapid.Bool().Draw(t, "tableLen") {
@@ -427,7 +427,7 @@ func genHostileLen(t *rapid.T) uint32 {
 
 func genRaw(t *rapid.T) RawSpec {
 	r := RawSpec{Seed: rapid.Uint32().Draw(t, "rseed")}
-	switch k := rapid.IntRange(0, 9).Draw(t, "rawClass"); {
+	switch k := pick(t, "rawClass", 1, 1, 1, 1, 1, 1, 1, 1, 1, 1); {
 	case k == 0: // arbitrary short bytes
 		r.Explicit = rapid.SliceOfN(rapid.Byte(), 0, 64).Draw(t, "explicit")
 	case k <= 3: // valid frame
@@ -458,8 +458,8 @@ func genRaw(t *rapid.T) RawSpec {
 
 func genChunking(t *rapid.T, c *CodecCase, total int) {
 	c.EOFWithLast = rapid.Bool().Draw(t, "eofWithLast")
-	c.ErrEnd = rapid.IntRange(0, 5).Draw(t, "errEnd") == 0
-	switch rapid.IntRange(0, 5).Draw(t, "chunkStrategy") {
+	c.ErrEnd = pick(t, "errEnd", 5, 1) == 1
+	switch pick(t, "chunkStrategy", 1, 1, 1, 1, 2) {
 	case 0: // coalesced
 	case 1:
 		c.Fixed = 1
@@ -486,7 +486,7 @@ func genChunking(t *rapid.T, c *CodecCase, total int) {
 
 func genCodecCase(t *rapid.T) CodecCase {
 	var c CodecCase
-	switch k := rapid.IntRange(0, 19).Draw(t, "mode"); {
+	switch k := pick(t, "mode", 1, 1, 1, 1, 1, 1, 1, 1, 1, 1, 1, 1, 1, 1, 1, 1, 1, 1, 1, 1); {
 	case k < 8:
 		c.Mode = "roundtrip"
 		n := rapid.IntRange(1, 4).Draw(t, "nframes")
@@ -504,7 +504,7 @@ func genCodecCase(t *rapid.T) CodecCase {
 		total := 0
 		for i := 0; i < n; i++ {
 			r := genRaw(t)
-			if rapid.IntRange(0, 7).Draw(t, "tail") == 0 {
+			if pick(t, "tail", 7, 1) == 1 {
 				r.Tail = rapid.SliceOfN(rapid.Byte(), 1, 30).Draw(t, "tailBytes")
 			}
 			c.Raw = append(c.Raw, r)
@@ -518,7 +518,7 @@ func genCodecCase(t *rapid.T) CodecCase {
 		c.Frames = []FrameSpec{f}
 	default:
 		c.Mode = "id-string"
-		if rapid.IntRange(0, 9).Draw(t, "longID") < 2 {
+		if pick(t, "longID", 8, 2) == 1 {
 			c.IDString = realisticID(t, "ids") // > 16 bytes: the listed truncation
 		} else {
 			s := genID(t, "ids")
@@ -535,7 +535,7 @@ func genCodecCase(t *rapid.T) CodecCase {
 // in any chunking give a frame or an error within the allocation bound.
 func TestCodec(t *testing.T) {
 	runtime.GC()
-	vkit.Check(t, 24000, 400000, func(t *rapid.T) {
+	vkit.Check(t, 40000, 600000, func(t *rapid.T) {
 		checkCodec(t, genCodecCase(t))
 	})
 }
